@@ -670,9 +670,11 @@ class err_gs(err_node):
         if seg_data is None:
             self.st_count_orig = 0
         else:
+            ge01 = seg_data.get_value('GE01')
             try:
-                self.st_count_orig = int(seg_data.get_value('GE01'))  # AK902
-            except (TypeError, ValueError):
+                # digits only: int() alone would also take '+1', '1_0' or ' 1'
+                self.st_count_orig = int(ge01) if ge01.isascii() and ge01.isdigit() else 0  # AK902
+            except (AttributeError, TypeError, ValueError):
                 # GE01 missing or not numeric (reported as an error elsewhere)
                 self.st_count_orig = 0
         self.st_count_recv = src.st_count  # AK903
